@@ -219,3 +219,7 @@ from props import workbench as WB   # noqa: E402
 
 CLAUSES.append(Clause("object_history", WB.cfg_programs, WB.run_cfg, quick=300, thorough=3000, rule=WB.CFG_RULE))
 KNOWN_PREDICATES = {}
+
+# coverage-guided second driver (atheris / libFuzzer through Hypothesis' fuzz_one_input) for the core clauses: (clause, quick runs, thorough runs)
+from harness.covfuzz import cov_clauses  # noqa: E402
+CLAUSES += cov_clauses('C07', CLAUSES, [('accepts', 1000, 20000), ('cyk_table', 2000, 40000)])
